@@ -160,7 +160,7 @@ let run_case id main files stddir =
       (* the flat shell model of the C01 theorems on the model's own script (defined for function-free programs; loops included) *)
       let flat = (match BashConv.emit_bash body with
           | Transpile.TOk (_, st) ->
-              (match FlatLoop.lrun (nat_of_int 60000) false [] [] st.BashConv.b_code with
+              (match FlatLoop.lrun (fun _ _ _ -> None) [] (nat_of_int 60000) false [] [] st.BashConv.b_code with
                | Some (_, out) -> " flat=" ^ hex_of_bytes out
                | None -> "")
           | _ -> "") in
